@@ -473,6 +473,11 @@ func (w *Worktree) AddGlob(pattern string) error {
 
 	var saveIndex bool
 	for _, file := range files {
+		if file == GitDirName {
+			// a pattern such as "*" also matches the repository directory
+			continue
+		}
+
 		fi, err := w.filesystem.Lstat(file)
 		if err != nil {
 			return err
